@@ -3,9 +3,9 @@ from hypothesis import strategies as st
 
 WORD = "abcdefghijklmnopqrstuvwxyzABCDEFGHIJKLMNOPQRSTUVWXYZ0123456789_"
 
-_WS = [" ", "  ", "\t", "\n", "\r\n", "\n\n", " \n ", "\x0c", "\x0b", "\u00a0", "\u2003", "\n\t\t"]
+_WS = [" ", "  ", "\t", "\n", "\r\n", "\n\n", " \n ", "\x0c", "\x0b", "\u00a0", "\u2003", "\n\t\t", "\r", " \r ", "\r\r", "\x1c", "\x85", "\u2028"]
 _COMMENT_WORDS = ["x", "return", '"', "'", "//", "*", "/", "{", "}", "weighted 1", "def", "é", "if a == 1", ",", '"B" weighted 1',
-                  "**", "* /", "http://x", "日本", "else", "(", ")", "-", "salt: 's'", " ", "  "]
+                  "**", "* /", "http://x", "日本", "else", "(", ")", "-", "salt: 's'", " ", "  ", "\r", "\x0c", "a\rb = 1"]
 
 
 class Chooser:
@@ -88,7 +88,7 @@ def needs_separator(a, b):
     return bool(a) and bool(b) and a[-1] in WORD and b[0] in WORD
 
 
-STYLES = ["random", "random", "random", "min", "lines", "dense-comments"]
+STYLES = ["random", "random", "random", "min", "lines", "dense-comments", "comment-line-before-salt"]
 
 
 def make_variant(data, toks, style=None):
@@ -125,6 +125,17 @@ def make_variant(data, toks, style=None):
                 sep, t = trivia(ch, allow_empty=not need)
             if need and not (sep and (sep[0].isspace() or sep.startswith("/"))):
                 sep = " " + sep
+            if style == "comment-line-before-salt":
+                # `// note` on its own line right before the salt clause, which sits on one line of its own: if the line
+                # break that ends the comment were lost, the clause would silently become part of the comment
+                if toks[i + 1][0] == "SALT":
+                    sep = sep + "\n// " + ch.pick(["note", "enable for the rerun:", "salt below", "x"]) + "\n"
+                    tags.add("line-comment")
+                    tags.add("comment-line-before-salt")
+                elif ty in ("SALT", "COLON") and toks[i + 1][0] in ("COLON", "STRING"):
+                    sep = " "
+                elif ty == "STRING" and i >= 2 and toks[i - 2][0] == "SALT":
+                    sep = "\n"
             out.append(sep)
             tags.update(t)
     trail, t = ("", []) if style == "min" else trivia(ch)
@@ -169,7 +180,15 @@ def mutate_tokens(draw, toks, other_toks=None):
         n = len(toks)
         if n == 0:
             break
-        i = draw(st.integers(0, n - 1))
+        if draw(st.booleans()):
+            i = draw(st.integers(0, n - 1))
+        else:
+            # choose a token TYPE first, then one of its occurrences: rare token kinds (MINUS, NOT, ELSE, COLON ...) are
+            # mutated as often as frequent ones
+            types = sorted({t for t, _ in toks})
+            ty = draw(st.sampled_from(types))
+            occ = [j for j, (t, _) in enumerate(toks) if t == ty]
+            i = occ[draw(st.integers(0, len(occ) - 1))]
         if kind == "delete":
             del toks[i]
         elif kind == "duplicate":
